@@ -71,6 +71,7 @@ type Exec struct {
 	assuming     bool
 	nref         int
 	openCaptured bool
+	localTags    map[string]bool // locals named by the tag list of the clause being evaluated
 	litDepth     int
 	nlit, nlitVerified int
 	litPos       token.Pos
@@ -820,6 +821,18 @@ func (x *Exec) evalIdent(e *ast.Ident, st *State) (Value, types.Type) {
 			}
 		}
 		if o := x.conScope[e.Name]; o != nil {
+			// a variable captured by the unit (a literal or a block of an enclosing function) is the unit's
+			// interface: it is what an untagged clause means, even when the body declares a local of the same
+			// name later (g, found, err := ... in a case clause of cfg); [local:name] clauses mean the local
+			if x.openCaptured && x.litPos.IsValid() && !x.localTags[e.Name] {
+				if sc := x.pkg.Types.Scope().Innermost(x.litPos); sc != nil {
+					if _, co := sc.LookupParent(e.Name, x.litPos); co != nil && co != o {
+						if _, isVar := co.(*types.Var); isVar && co.Pkg() != nil && co.Parent() != co.Pkg().Scope() {
+							return x.evalObject(co, st)
+						}
+					}
+				}
+			}
 			if v, ok := st.env[o]; ok {
 				return v, o.Type()
 			}
@@ -1035,6 +1048,13 @@ func (x *Exec) walkFields(st *State, cur Term, t types.Type, path []int, at ast.
 func (x *Exec) safety(st *State, kind string, at ast.Expr, cond string) {
 	if x.contract || (x.con != nil && x.con.Opts["safety"] == "off") {
 		return
+	}
+	if x.con != nil && strings.Contains(x.con.Opts["safety"], ":") {
+		// `opt safety = kind:text`: only the obligations of this kind on expressions containing the text
+		kt := strings.SplitN(x.con.Opts["safety"], ":", 2)
+		if kind != strings.TrimSpace(kt[0]) || !strings.Contains(types.ExprString(at), strings.TrimSpace(kt[1])) {
+			return
+		}
 	}
 	if x.allowPanic != "" {
 		cond = or(cond, x.allowPanic)
